@@ -125,6 +125,12 @@ func Setup(repo string, props []string, extraPkgs []string) (*World, error) {
 		if pkg == nil {
 			continue // package not loaded in this run
 		}
+		if c.Lemma {
+			if pkg.Func(c.FuncName) == nil {
+				return nil, fmt.Errorf("lemma function %s not found", c.FuncName)
+			}
+			continue
+		}
 		hf := pkg.Func(c.HarnessName)
 		if hf == nil {
 			return nil, fmt.Errorf("harness for %s missing after load", c.Display())
@@ -238,6 +244,19 @@ func VerifyContract(w *World, c *Contract) (res *FuncResult) {
 		}
 	}()
 	pkg := w.Pkgs[c.Pkg]
+	if c.Lemma {
+		// a lemma: ghost Go code executing the real functions, with verif_assert as obligations
+		lf := pkg.Func(c.FuncName)
+		st := e.NewState()
+		args := e.symbolicArgs(st, lf.Params, c.MaybeNil)
+		e.spec++
+		e.lemmaMode = true
+		e.runFunc(lf, args, nil, st, nil)
+		e.lemmaMode = false
+		e.spec--
+		res.Obls = e.Obls
+		return res
+	}
 	hf := pkg.Func(c.HarnessName)
 	st := e.NewState()
 	args := e.symbolicArgs(st, hf.Params, c.MaybeNil)
